@@ -1,6 +1,9 @@
 import PybtexModel.Drv.Json
 import PybtexModel.Model.Wrap
 import PybtexModel.Model.Interp
+import PybtexModel.Model.WrapCalls
+import PybtexModel.Spec.BstSem
+import PybtexModel.Spec.WrapPhys
 open Lean
 namespace Pybtex.Drv.C19
 open Pybtex.Wrap
@@ -48,8 +51,66 @@ def wrapEngineOp (j : Json) : Except String Json := do
                            ("groups", arr (groups.map fun g =>
                               obj [("lines", strs (iterLines 79 [' ', ' '] g.flatten))]))])])
 
+/-! ### function-level ops (extension, round 2) -/
+
+/-- `{"op":"ws_positions","text":…}` ↦ `[m.start() for m in whitespace_re.finditer(text)]`. -/
+def wsPositionsOp (j : Json) : Except String Json := do
+  let text ← getStr j "text"
+  pure (obj [("out", arr ((wsPositions text).map nat))])
+
+/-- `{"op":"pairwise","items":[n,…]}` ↦ `list(pybtex.utils.pairwise(items))` (`null` = `None`). -/
+def pairwiseOp (j : Json) : Except String Json := do
+  let items ← (← getArr j "items").mapM fun x => x.getNat?
+  pure (obj [("out", arr ((pairwise items).map fun p => arr [nat p.1, optJ nat p.2]))])
+
+/-- `{"op":"rstrip","text":…}` ↦ `text.rstrip()`. -/
+def rstripOp (j : Json) : Except String Json := do
+  let text ← getStr j "text"
+  pure (obj [("out", strToJson (rstrip text))])
+
+/-- `{"op":"wrap_signature"}` ↦ the default arguments the model stands for. -/
+def wrapSignatureOp (_ : Json) : Except String Json :=
+  pure (obj [("out", obj [("width", int defaultWidth), ("indent", strToJson defaultIndent)])])
+
+/-- `{"op":"iter_trace","text":…,"width":…,"indent":…}`: the inner functions of `wrap` call by call.
+`out.calls` = `[[argument, result], …]` of every `find_break` call of the loop, `out.lines` = what `iter_lines`
+yields (before `rstrip`), `out.wrap` = the returned string. -/
+def iterTraceOp (j : Json) : Except String Json := do
+  let text ← getStr j "text"
+  let width ← getInt j "width"
+  let indent ← getStr j "indent"
+  pure (obj [("out", obj [("calls", arr ((iterCalls width indent text).map fun c => arr [strToJson c.1, optJ nat c.2])),
+                          ("lines", strs (iterLines width indent text)),
+                          ("wrap", strToJson (wrap width indent text))]),
+             ("spec", obj [("lines", strs (iterLines width indent text)),
+                           ("first_break", optJ nat (findBreak width indent text))])])
+
+/-- `{"op":"engine_calls","calls":[["w",piece] | ["n"],…]}`: `Interpreter.output(piece)` / `Interpreter.newline()`
+called directly on a fresh interpreter.  `out.lines` / `out.buffer` = `output_lines` / `output_buffer` afterwards
+(the fold of `emit`, `Spec/BstSem.lean`), `out.bbl` = `''.join(output_lines)`; `spec.groups` = for every `newline`
+the lines of `iter_lines` of the buffered text, `spec.phys` = the physical lines `C19_physical_lines` states
+(`null` when a piece holds a line feed). -/
+def engineCallsOp (j : Json) : Except String Json := do
+  let evs ← (← getArr j "calls").mapM fun c => do
+    match (← c.getArr?).toList with
+    | [_, x] => pure (Interp.OutEv.write (← jsonToStr x))
+    | _ => pure Interp.OutEv.newline
+  let st := evs.foldl BstSem.emit ([], [])
+  let groups := traceGroups [] evs
+  let phys : Json :=
+    if groups.all (fun g => !g.flatten.contains '\n') then
+      strs ((groups.map fun g => groupPhysLines g.flatten).flatten ++ [[]])
+    else Json.null
+  pure (obj [("out", obj [("lines", strs st.1), ("buffer", strs st.2), ("bbl", strToJson st.1.flatten)]),
+             ("spec", obj [("engine", strToJson (engineOutput groups)),
+                           ("groups", arr (groups.map fun g =>
+                              obj [("lines", strs (iterLines 79 [' ', ' '] g.flatten))])),
+                           ("phys", phys)])])
+
 /-- driver ops of this property: (op name, handler) -/
 def handlers : List (String × (Json → Except String Json)) :=
-  [("wrap", wrapOp), ("wrap_widths", wrapWidthsOp), ("wrap_engine", wrapEngineOp)]
+  [("wrap", wrapOp), ("wrap_widths", wrapWidthsOp), ("wrap_engine", wrapEngineOp),
+   ("ws_positions", wsPositionsOp), ("pairwise", pairwiseOp), ("rstrip", rstripOp),
+   ("wrap_signature", wrapSignatureOp), ("iter_trace", iterTraceOp), ("engine_calls", engineCallsOp)]
 
 end Pybtex.Drv.C19
